@@ -2021,24 +2021,6 @@ Fixpoint starts_colon (e : ex) : bool :=
   | _ => false
   end.
 
-Definition row_binding (row : list ex) : bool :=
-  match row with
-  | EVar _ _ :: c :: _ => starts_colon c
-  | _ => false
-  end.
-
-Definition rhs_rowbinding (r : rhs) : bool :=
-  match r with RTable _ (_ :: rows) => existsb row_binding rows | _ => false end.
-
-Definition c_rowbinding (p : prog) : bool :=
-  existsb (fun s => match s with
-                    | SDefine _ _ _ r | SAssign _ _ r | SOpAssign _ _ _ r | SExpr r => rhs_rowbinding r
-                    | _ => false
-                    end) p.
-
-(* a third clash: formatter.rs prints logical not as `¬`, and the real grammar accepts `¬x` as a record FIELD NAME; a map
-   all of whose keys are identifier-like once printed (`a`, `true`, `¬x`) therefore re-parses as a record.  (With the
-   `!` spelling at least one key is not a field name, which is why the source parsed as a map.) *)
 (* after a leading `¬` the identifier may continue with letters, digits and `/`: `¬22/7` is a field name too *)
 Definition idtail_num (s : string) : bool :=
   all_chars (fun c => is_alpha c || is_digit c || Ascii.eqb c "/") s.
@@ -2058,6 +2040,26 @@ Definition idlike (e : ex) : bool :=
   | _ => false
   end.
 
+(* the first cell of the row is read as the field name: a variable (with or without kind), or anything else the grammar
+   accepts as a field name (`true`, `¬b`: see the class map-keys-read-as-record below) *)
+Definition row_binding (row : list ex) : bool :=
+  match row with
+  | c0 :: c :: _ => (match c0 with EVar _ _ => true | _ => idlike c0 end) && starts_colon c
+  | _ => false
+  end.
+
+Definition rhs_rowbinding (r : rhs) : bool :=
+  match r with RTable _ (_ :: rows) => existsb row_binding rows | _ => false end.
+
+Definition c_rowbinding (p : prog) : bool :=
+  existsb (fun s => match s with
+                    | SDefine _ _ _ r | SAssign _ _ r | SOpAssign _ _ _ r | SExpr r => rhs_rowbinding r
+                    | _ => false
+                    end) p.
+
+(* a third clash: formatter.rs prints logical not as `¬`, and the real grammar accepts `¬x` as a record FIELD NAME; a map
+   all of whose keys are identifier-like once printed (`a`, `true`, `¬x`) therefore re-parses as a record.  (With the
+   `!` spelling at least one key is not a field name, which is why the source parsed as a map.) *)
 Definition c_mapnot (e : ex) : bool :=
   match e with
   | EMap ((_ :: _) as ms) =>
